@@ -90,6 +90,16 @@ def r16_2(ctx, fx):
             p = region_uncovered(fn, r_.node, dis)
             ctx.ob("R16.2", "on_substream_open_failure/removed-action=>disconnect_peer", p is None, site=fn.site(r_.node), cfg=fx.cfg,
                    detail=fn.path_sites(p) if p else "")
+    # who may take a peer's context (and with it all of its pending actions) out of `peers`: only the bodies that settle every
+    # pending action of the removed context (disconnect_peer) or that run when the connection is gone
+    removers = []
+    for key in sorted(fx.find(r"^protocol::libp2p::kademlia::Kademlia::\w+(::\{closure#0\})?$")):
+        f2 = fx.fn(key)
+        for c in field_calls(f2, r"HashMap::remove$", "peers"):
+            if re.search(r"\.peers\W*$", f2.recv(c)) or f2.recv(c).rstrip("*").endswith(".peers"):
+                removers.append(re.sub(r"::\{closure#0\}$", "", key).rsplit("::", 1)[-1])
+    ctx.ob("R16.2", "peers.remove-only-in-disconnect_peer", set(removers) <= {"disconnect_peer"} and bool(removers), cfg=fx.cfg,
+           detail="bodies removing a PeerContext (with its pending actions): %s; only disconnect_peer fails every pending action of the removed context" % sorted(set(removers)))
     # disconnect_peer: the failing query and all other pending actions are failed
     fn = ctx.fn(fx, K + "disconnect_peer::{closure#0}", "R16.2")
     if fn is not None:
